@@ -272,6 +272,10 @@ def _gen_spec(rng, quick, idx):
         spec['history']['mode'] = 'train'
     elif r < 0.30 and len(layers) >= 2:
         spec['residual'] = rng.randrange(1, len(layers))     # convs[i](x) + shorts[i](x), shortcut 1x1
+    elif r < 0.38 and 0 not in wp:
+        spec['two_inputs'] = True               # forward(x, y) = ... convs[0](x) + aux(y) ..., own quantizers
+    elif r < 0.42:
+        spec['alpha_scale'] = 1e-9              # coefficients so small that the float32 softmax collapses them
     return spec
 
 
@@ -325,10 +329,14 @@ def _build(spec, alphas=None, twin=False):
                     self.shorts[str(i)] = nn.Conv2d(cin, c, 1)
                 cin = c
             self.fc = nn.Linear(cin * hw * hw, 4) if spec['linear'] else None
+            if spec.get('two_inputs'):
+                self.aux = nn.Conv2d(3, layers[0][0], layers[0][1], padding=layers[0][1] // 2)
 
-        def forward(self, x):
+        def body(self, x, y):
             for i, c in enumerate(self.convs):
-                if str(i) in self.shorts:
+                if i == 0 and y is not None:
+                    x = F.relu(c(x) + self.aux(y))
+                elif str(i) in self.shorts:
                     x = F.relu(c(x) + self.shorts[str(i)](x))
                 else:
                     x = F.relu(c(x))
@@ -336,9 +344,19 @@ def _build(spec, alphas=None, twin=False):
                 x = self.fc(x.flatten(1))
             return x
 
+        def forward(self, x):
+            return self.body(x, None)
+
+    class Net2(Net):
+        def forward(self, x, y):
+            return self.body(x, y)
+
     hist = spec.get('history')
     torch.manual_seed(spec['seed'])
-    m = MPS(Net(), input_shape=(3, hw, hw), cost={'ne16': ne16_latency},
+    two = bool(spec.get('two_inputs'))
+    xs = (torch.zeros(1, 3, hw, hw), torch.zeros(1, 3, hw, hw)) if two else (torch.zeros(1, 3, hw, hw),)
+    m = MPS(Net2() if two else Net(), input_example=xs if two else xs[0], cost={'ne16': ne16_latency},
+            disable_shared_quantizers=two,
             w_search_type=MPSType.PER_CHANNEL,
             qinfo=get_default_qinfo(tuple(spec['wp']), (8,)),
             hard_softmax=bool(hist and hist['hard_ctor']),
@@ -363,32 +381,34 @@ def _build(spec, alphas=None, twin=False):
     def write(values):
         with torch.no_grad():
             for lname, p in params:
-                p.copy_(torch.tensor(values[lname], dtype=torch.float32))
+                p.copy_(torch.tensor(values[lname], dtype=torch.float32) * float(spec.get('alpha_scale', 1)))
 
-    x = torch.zeros(1, 3, hw, hw)
     if hist is None or twin:
         # reference state: the arg-max assignment of `used`, hard sampling, coefficients refreshed
         write(used)
         m.eval() if (hist is None or hist['mode'] == 'eval') else m.train()
         m.update_softmax_options(hard=True)
-        m(x)
+        m(*xs)
         return m, used
     m.eval() if hist['mode'] == 'eval' else m.train()
     pre = hist['pre']
     if pre == 'forward':
         write(used)
-        m(x)
+        m(*xs)
     elif pre == 'none':
         write(used)
     else:
         write(other)
         if pre == 'hard-stale':
             m.update_softmax_options(hard=True)
-        m(x)
+        m(*xs)
         if pre == 'refine-stale':
             from plinio.methods.mps import utils as U
-            with contextlib.redirect_stdout(io.StringIO()):
-                U.optimize_prec_assignment(m, 'ne16')
+            try:
+                with contextlib.redirect_stdout(io.StringIO()):
+                    U.optimize_prec_assignment(m, 'ne16')
+            except Exception as e:              # reported by the caller as the refinement raising
+                m._c20_prior_error = type(e).__name__ + ': ' + str(e)[:120]
         write(used)                             # e.g. the optimizer step after the last forward pass
     return m, used
 
@@ -415,7 +435,16 @@ def _run_e2e(spec, alphas=None):
         assert _w_summary(tw) == before
         cost_before = float(tw.get_cost('ne16').detach())
         del tw
-    rec = {'layers': {}, 'order': []}
+    rec = {'layers': {}, 'order': [], 'saturated': {}}
+    if getattr(m, '_c20_prior_error', None):
+        rec.update(error=m._c20_prior_error, before=before, cost_before=cost_before, alphas=used)
+        return rec
+    # float32 softmax saturation: arg-max of softmax(alpha / T) differs from arg-max of alpha (no tie in alpha)
+    for lname, _, layer in m._unique_leaf_modules:
+        q = getattr(layer, 'w_mps_quantizer', None)
+        if q is not None and getattr(q, 'alpha', None) is not None and q.alpha.dim() == 2:
+            a = q.alpha.detach()
+            rec['saturated'][lname] = bool((torch.softmax(a / q.temperature, 0).argmax(0) != a.argmax(0)).any())
     orig_cc, orig_rr = U._compute_cost, U._reassign_precisions
     state = {'lname': None, 'args': {}}
 
@@ -571,6 +600,18 @@ def _e2e_failures(spec, rec):
         [round(v) for v in L['chosen']] == [sum(1 for x in rec['before'][k] if x == p) for p in L['precs']]
         for k, L in rec['layers'].items() if 'chosen' in L)
     option = (spec.get('history') or {}).get('option')
+    if any(rec.get('saturated', {}).values()):
+        # outside the property's domain as read in DESIGN section 5 (coefficients with an arg-max margin the
+        # sampler resolves): the sampler's theta_alpha is not the arg-max of alpha; reported as observation
+        lay = sorted(k for k, v in rec['saturated'].items() if v)
+        stale = [ln for ln in rec['order'] if 'chosen' in rec['layers'][ln] and
+                 exact_counts(rec['layers'][ln]['passed_frac'][0], rec['layers'][ln]['C']) !=
+                 [sum(1 for x in rec['before'][ln] if x == p) for p in rec['layers'][ln]['precs']]]
+        low = sum(1 for ln in rec['order'] if ln in rec.get('after', {})
+                  for x, y in zip(rec['before'][ln], rec['after'][ln]) if y < x)
+        return [('OBS:softmax-saturation', 'float32 softmax(alpha/T) collapses distinct coefficients (|alpha| ~ %g) in '
+                 'layer(s) %s: the counts the refinement reads are not the arg-max counts of alpha in %d layer(s); '
+                 '%d channel(s) lowered' % (spec.get('alpha_scale', 1) * 100, ','.join(lay), len(stale), low), None)]
     stale_key = {'disable_sampling': 'C20:refine:stale-counts:disable_sampling',
                  'gumbel': 'C20:refine:stale-counts:gumbel-train'}.get(option)
     qids = [L.get('qid') for L in rec['layers'].values() if 'chosen' in L]
@@ -782,7 +823,8 @@ def run(chk):
             continue
         for lname in rec['order']:
             L = rec['layers'][lname]
-            if 'chosen' in L and is_integral(L['chosen'], L['C']) and L['C'] <= 64 and tie_free(L['scores']):
+            if 'chosen' in L and is_integral(L['chosen'], L['C']) and L['C'] <= 64 and tie_free(L['scores']) \
+                    and all(float(v).is_integer() for r in L['scores'] for v in r):
                 e2e_reassign.append((spec, lname, [int(v) for v in L['chosen']],
                                      [[int(v) for v in r] for r in L['scores']],
                                      [[int(v) if float(v).is_integer() else v for v in r] for r in L['out']]))
@@ -881,6 +923,14 @@ def _oracle_e2e(chk, specs, recs):
             if flag:
                 chk.hist['e2e:' + tag] = chk.hist.get('e2e:' + tag, 0) + 1
         fails = _e2e_failures(spec, rec)
+        obs = [f for f in fails if f[0].startswith('OBS:')]
+        fails = [f for f in fails if not f[0].startswith('OBS:')]
+        for (key, what, lname) in obs:
+            chk.hist['e2e:' + key] = chk.hist.get('e2e:' + key, 0) + 1
+            if chk.hist['e2e:' + key] == 1:
+                chk.observe(what + ' (first such net; same family as the C10/C02 softmax observations)')
+        if obs:
+            continue
         for (key, what, lname) in fails:
             chk.violation(key, what, dict(case, layer=lname, key=key))
         if not fails:
